@@ -231,10 +231,13 @@ SUM_GEN = {
               ("US2", "TRUE", "TRUE", "FALSE", 1, "FALSE", "TRUE", 250),
               ("US2", "FALSE", "FALSE", "TRUE", 0, "FALSE", "FALSE", 120),
               ("US3", "FALSE", "TRUE", "FALSE", 1, "FALSE", "TRUE", 200),
-              ("US2", "TRUE", "TRUE", "TRUE", 1, "FALSE", "TRUE", 150, "TRUE")],
+              ("US2", "TRUE", "TRUE", "TRUE", 1, "FALSE", "TRUE", 150, "TRUE"),
+              ("US4", "FALSE", "FALSE", "FALSE", 0, "FALSE", "TRUE", 150, "FALSE", {"same_steps": True})],
     "thorough": [("US1", "TRUE", "TRUE", "FALSE", 1, "FALSE", "TRUE", 5000),
                  ("US2", "TRUE", "TRUE", "TRUE", 1, "FALSE", "TRUE", 2500, "TRUE"),
                  ("US3", "TRUE", "TRUE", "FALSE", 1, "TRUE", "FALSE", 1500, "TRUE"),
+                 ("US4", "FALSE", "FALSE", "FALSE", 0, "FALSE", "TRUE", 2500, "FALSE", {"same_steps": True}),
+                 ("US4", "TRUE", "TRUE", "TRUE", 1, "FALSE", "TRUE", 1500, "TRUE", {"same_steps": True}),
                  ("US1", "TRUE", "TRUE", "TRUE", 1, "TRUE", "TRUE", 3000),
                  ("US1", "FALSE", "FALSE", "TRUE", 0, "FALSE", "FALSE", 2000),
                  ("US2", "TRUE", "TRUE", "FALSE", 1, "FALSE", "TRUE", 5000),
@@ -289,13 +292,14 @@ def run_summarize_engine(tier):
         for k, g in enumerate(got):
             g["id"] = f"{c[0]}.{n}.{k}"
             g["pipelines"] = SUM_PIPELINES
+            g["opts"] = c[9] if len(c) > 9 else {}
         gens.append({"universe": c[0], "consts": list(c[1:7]), "log_events": logs == "TRUE",
                      "behaviours": len(got), "wall_s": r["wall_s"]})
         streams.extend(got)
     # group by universe: Trace_Summarize takes U from the first record
     by_uni = {}
     for s in streams:
-        by_uni.setdefault(json.dumps(s["universe"], sort_keys=True), []).append(s)
+        by_uni.setdefault(json.dumps([s["universe"], s.get("opts", {})], sort_keys=True), []).append(s)
     verdicts = {}
     recs_all = {}
     for k, (_, group) in enumerate(sorted(by_uni.items())):
